@@ -948,6 +948,9 @@ func (n *vc17SockNode) Exchange(ctx context.Context, req *dns.Msg) (resp *dns.Ms
 	resp, nw, err = n.UpstreamPlain.Exchange(ctx, req)
 	if n.main && vc17IsProbeName(q.Name) {
 		n.env.noteProbeEnd(n.idx)
+		if n.mode != vc17SockStall && n.mode != vc17SockClosed && !n.env.roundDeadline.IsZero() && time.Since(start) > vc17RoundLoad {
+			n.env.roundLoad.Store(true)
+		}
 	}
 
 	if n.mode != vc17SockStall && time.Since(start) > vc17Timeout/2 {
@@ -1046,19 +1049,20 @@ func TestVerifC17Sockets(t *testing.T) {
 }
 
 // vc17SlowProbeTimeouts are the time-outs T of a silent main in the
-// slow-probe histories; a probe of it takes 2T to fail (the client retries
-// once on a fresh connection).  vc17SlowProbeBackoffs are drawn with them so
+// slow-probe histories; a probe of it takes T to fail (the client's retry on
+// a fresh connection shares the deadline).  vc17SlowProbeBackoffs are drawn with them so
 // that the probe's duration is above, about and below the backoff.
 var (
 	vc17SlowProbeTimeouts = []time.Duration{25 * time.Millisecond, 60 * time.Millisecond}
-	vc17SlowProbeBackoffs = []time.Duration{40 * time.Millisecond, 100 * time.Millisecond, 150 * time.Millisecond, 400 * time.Millisecond, 30 * time.Second}
+	vc17SlowProbeBackoffs = []time.Duration{20 * time.Millisecond, 40 * time.Millisecond, 100 * time.Millisecond, 150 * time.Millisecond, 400 * time.Millisecond, 30 * time.Second}
 )
 
 func TestVerifC17SlowProbe(t *testing.T) {
 	st := vstat.New("C17", "forward.slowprobe",
-		"rapid histories over the socket fixture (1-2 mains, 1-2 fallbacks, real UpstreamPlain clients): a main in rotation turns silent (bound, reads, never answers) with time-out T in {25,60} ms, so that its health-check probe takes 2T to fail; backoff in {40,100,150,400 ms, 30 s} (probe duration above and below the backoff); the main comes back; the clock is stepped to backoff minus 1/2 or 3/4 of the probe's duration (inside the window between 'backoff since the probe STARTED' and 'backoff since its failure was ESTABLISHED'), to well before it, or past the backoff; a health-check round and queries follow.  The reference counts the backoff from the moment the failing probe returned (a lower bound of the failure), so it says 'still out of rotation' only when the backoff cannot have elapsed since the failure; non-trivial = a round inside the window, distinct by the whole history",
+		"rapid histories over the socket fixture (1-3 mains, the silent one at a drawn position, 1-2 fallbacks, real UpstreamPlain clients; the failing round has its own time-out T/2, T, 3T or 5 s; in a third of the cases a later round re-probes the silent main for 150 ms while a query with a 40 ms budget is sent 37 ms into it, judged after a control query and one repetition): a main in rotation turns silent (bound, reads, never answers) with time-out T in {25,60} ms, so that its health-check probe takes T to fail; backoff in {20,40,100,150,400 ms, 30 s} (probe duration above and below the backoff); the main comes back; the clock is stepped to backoff minus 1/2 or 1/4 of the probe's duration (inside the window between 'backoff since the probe STARTED' and 'backoff since its failure was ESTABLISHED'), to well before it, or past the backoff; a health-check round and queries follow.  The reference counts the backoff from the moment the failing probe returned (a lower bound of the failure), so it says 'still out of rotation' only when the backoff cannot have elapsed since the failure; non-trivial = a round inside the window, distinct by the whole history",
 		"refresh-in-window-after-slow-probe-failure", "slow-probe-longer-than-backoff", "slow-probe-shorter-than-backoff",
-		"blocked-in-backoff-while-up", "recovered-after-backoff", "health-check-with-udp-silent-main")
+		"blocked-in-backoff-while-up", "recovered-after-backoff", "health-check-with-udp-silent-main",
+		"round-timeout-not-above-upstream-timeout-with-silent-main-not-last", "query-during-round-with-slow-probe")
 	st.Finish(t)
 
 	rapid.Check(t, vc17SocketsProperty(st, true))
@@ -1074,6 +1078,7 @@ func vc17SocketsProperty(st *vstat.Stats, slowProbe bool) func(t *rapid.T) {
 		nFb := rapid.SampledFrom([]int{0, 1, 1, 2}).Draw(t, "fallbacks")
 		backoff := rapid.SampledFrom([]time.Duration{0, 30 * time.Second, 10 * time.Minute}).Draw(t, "backoff")
 		if slowProbe {
+			nMain = rapid.SampledFrom([]int{1, 2, 2, 3, 3}).Draw(t, "slowMains")
 			nFb = max(nFb, 1)
 			backoff = rapid.SampledFrom(vc17SlowProbeBackoffs).Draw(t, "slowBackoff")
 		}
@@ -1281,6 +1286,9 @@ func vc17SocketsProperty(st *vstat.Stats, slowProbe bool) func(t *rapid.T) {
 			return true
 		}
 
+		// roundTimeout, if positive, is the time-out of the context of the
+		// next health-check round (the service's healthcheck time-out).
+		roundTimeout := time.Duration(0)
 		refresh := func() bool {
 			if !settle() {
 				return false
@@ -1297,7 +1305,15 @@ func vc17SocketsProperty(st *vstat.Stats, slowProbe bool) func(t *rapid.T) {
 			}
 
 			rctx, cancel := opCtx()
+			if roundTimeout > 0 {
+				cancel()
+				rctx, cancel = context.WithTimeout(ctx, roundTimeout)
+				fmt.Fprintf(&e.hist, "round-timeout=%s ", roundTimeout)
+			}
 			defer cancel()
+
+			e.roundDeadline, _ = rctx.Deadline()
+			defer func() { e.roundDeadline = time.Time{} }()
 			if err := e.refresh(rctx, fail); err != nil {
 				discarded = "clock-ambiguous-discarded"
 
@@ -1436,8 +1452,119 @@ func vc17SocketsProperty(st *vstat.Stats, slowProbe bool) func(t *rapid.T) {
 			return max(0, rapid.SampledFrom([]time.Duration{0, eps, backoff - eps, backoff, backoff + eps, backoff / 2}).Draw(t, "delta"))
 		}
 
+		// slowRoundWithQuery: n is silent and out of rotation.  Its backoff
+		// passes, so the next round probes it again and waits T = 150 ms for the
+		// time-out; meanwhile a client's query arrives whose time budget ends
+		// long before the round does.  It must be answered by an upstream that
+		// is up and eligible (the silent main is not), within its budget: a
+		// round in progress must not hold queries up.
+		slowRoundWithQuery := func(n *vc17SockNode) bool {
+			const budget = 40 * time.Millisecond
+
+			n.stallTimeout = 150 * time.Millisecond
+			if !setMode(n, vc17SockStall) {
+				return false
+			}
+
+			// Control: the same budget with no round in flight.  If the
+			// machine cannot serve that now, nothing is concluded below.
+			control := func() bool {
+				if !beginOp() {
+					return false
+				}
+
+				cctx, cancel := context.WithTimeout(ctx, budget)
+				defer cancel()
+
+				name := "control" + vc17BurstSuffix
+				e.log = e.log[:0]
+				rw, err := e.send(cctx, name, dns.TypeA, 1, false)
+
+				// The control is good if it went the way the reference says a
+				// query goes now (which may well be a failure).
+				good := true
+				func() {
+					defer func() {
+						if r := recover(); r != nil {
+							if _, soft := r.(vc17Soft); !soft {
+								panic(r)
+							}
+
+							good = false
+						}
+					}()
+
+					e.checkQuery(func(format string, args ...any) { panic(vc17Soft{msg: fmt.Sprintf(format, args...)}) },
+						name, dns.TypeA, 1, append([]vc17Call(nil), e.log...), rw, err, nil)
+				}()
+
+				return good
+			}
+
+			attempt := func() (verdict string, inRound, ok bool) {
+				e.advance(backoff + time.Second)
+				if !control() {
+					discarded = "machine-too-slow-for-query-budget-discarded"
+
+					return "", false, false
+				}
+
+				if !settle() || !beginOp() {
+					return "", false, false
+				}
+
+				rctx, cancel := context.WithTimeout(ctx, vc17Timeout)
+				defer cancel()
+
+				e.roundDeadline, _ = rctx.Deadline()
+				defer func() { e.roundDeadline = time.Time{} }()
+				verdict, inRound, err := e.duringRound(rctx, fail, n.stallTimeout/4, budget, rapid.Uint16().Draw(t, "id"))
+				if err != nil {
+					discarded = "clock-ambiguous-discarded"
+
+					return "", false, false
+				}
+
+				endOp()
+
+				return verdict, inRound, !caseCut
+			}
+
+			verdict, inRound, ok := attempt()
+			if !ok {
+				return false
+			}
+
+			e.class("query-during-round-attempted")
+			if inRound {
+				e.class("query-during-round-with-slow-probe")
+			}
+
+			if verdict == "" {
+				return true
+			}
+
+			// Once more before a verdict: a loaded machine can make one
+			// query miss its budget.
+			e.hist.WriteString("(again) ")
+			verdict2, _, ok := attempt()
+			if !ok {
+				return false
+			}
+
+			if verdict2 == "" {
+				discarded = "query-during-round-failed-once-discarded"
+
+				return false
+			}
+
+			fail("a query sent while a health-check round was waiting for a silent main failed twice, and a control query with the same budget outside a round succeeded both times:\n%s\n%s", verdict, e.describe())
+
+			return false
+		}
+
 		// slowProbeScenario: a main in rotation turns silent, its probe takes
-		// 2T to fail, it comes back, and a round runs around the end of the
+		// T to fail, it comes back, and a round runs around the end of the
 		// backoff.  Every step is an ordinary checked operation.
 		slowProbeScenario := func() bool {
 			n := nodes[rapid.IntRange(0, nMain-1).Draw(t, "slowOf")]
@@ -1458,19 +1585,51 @@ func vc17SocketsProperty(st *vstat.Stats, slowProbe bool) func(t *rapid.T) {
 			doQuery()
 			n.stallTimeout = rapid.SampledFrom(vc17SlowProbeTimeouts).Draw(t, "slowTimeout")
 			defer func() { n.stallTimeout = 0 }()
-			probeTakes := 2 * n.stallTimeout
+			// A probe of a silent main takes the upstream's time-out T (the
+			// client's retry on a fresh connection shares the same deadline).
+			probeTakes := n.stallTimeout
+
+			// The round's own time-out relative to the upstream's: smaller,
+			// equal (the probe then uses up the round, as with the
+			// distributed configuration), larger, or none to speak of.
+			switch rapid.IntRange(0, 4).Draw(t, "roundTimeoutKind") {
+			case 0:
+				roundTimeout = n.stallTimeout / 2
+			case 1, 2:
+				roundTimeout = n.stallTimeout
+			case 3:
+				roundTimeout = 3 * n.stallTimeout
+			}
+
+			if roundTimeout > 0 {
+				probeTakes = min(probeTakes, roundTimeout)
+				if roundTimeout <= n.stallTimeout && n.idx < nMain-1 {
+					e.class("round-timeout-not-above-upstream-timeout-with-silent-main-not-last")
+				}
+			}
+
 			if probeTakes >= backoff {
 				e.class("slow-probe-longer-than-backoff")
 			} else {
 				e.class("slow-probe-shorter-than-backoff")
 			}
 
-			if !setMode(n, vc17SockStall) || !refresh() {
+			ok := setMode(n, vc17SockStall) && refresh()
+			roundTimeout = 0
+			if !ok {
 				return false
 			}
 
 			if vc17SlowCode.Load() {
 				return true
+			}
+
+			// The main whose probe failed gets no query.
+			doQuery()
+			doQuery()
+
+			if rapid.IntRange(0, 1).Draw(t, "queryDuringRound") == 0 {
+				return slowRoundWithQuery(n)
 			}
 
 			if !setMode(n, vc17SockUp) {
@@ -1488,7 +1647,7 @@ func vc17SocketsProperty(st *vstat.Stats, slowProbe bool) func(t *rapid.T) {
 				// Inside the window: the backoff has elapsed since the probe
 				// STARTED but not since its failure was established.
 				frac := rapid.SampledFrom([]time.Duration{2, 4}).Draw(t, "slowFrac")
-				e.advance(max(0, backoff-probeTakes*(frac-1)/frac))
+				e.advance(max(0, backoff-probeTakes/frac))
 				e.class("refresh-in-window-after-slow-probe-failure")
 				e.nontrivial = true
 			}
